@@ -37,7 +37,7 @@ CLSN = 'PrefetchedCourierServer'
 
 
 def run(ctx: Ctx):
-  for r in (r1, r2, r3, r4, r5, r8, r12, r13, r14, r15, r16):
+  for r in (r1, r2, r3, r4, r5, r8, r12, r13, r14, r15, r16, r18):
     ctx.guard(r)
   from mlmverif.props._queue import model as qmodel
   from mlmverif.props import c05
@@ -656,10 +656,44 @@ def r16(ctx: Ctx):
   ctx.floor(rule, 1)
 
 
+def r18(ctx: Ctx):
+  rule = 'R-C15-18'
+  ctx.rule(rule, '"followed exactly once by an end marker carrying the generator\'s return value": the end of a stream is a STATE of'
+           ' the installed queue (exhausted, returned), which every later request reads again — the request handlers never'
+           ' un-install it. Outside the constructor, `self._generator` is stored only by the method that installs a new'
+           ' queue (it constructs the IteratorQueue). A handler that drops the queue after answering with the end marker'
+           ' turns the next poll (a second client, a repeated last request) into TimeoutError("Generator is not set, the'
+           ' worker might be killed") — a retriable error that makes the client restart a shard that had finished')
+  ci = ctx.repo.cls(CS, CLSN)
+  n = 0
+  installers = {name for name, m in ci.methods.items() if any(
+      isinstance(x, ast.Call) and unparse(x.func).endswith('IteratorQueue') for x in ast.walk(m.node))}
+  if not installers:
+    raise AnalysisError(f'{rule}: no method of {CLSN} constructs the prefetch IteratorQueue')
+  for name, m in ci.methods.items():
+    if name == '__init__':
+      continue
+    stores = [x for x in ast.walk(m.node) if isinstance(x, (ast.Assign, ast.AnnAssign, ast.AugAssign, ast.Delete)) and any(
+        is_self_attr(t) and t.attr == '_generator'
+        for t in (x.targets if isinstance(x, (ast.Assign, ast.Delete)) else [x.target]))]
+    n += 1
+    what = f'{CLSN}.{name}: the installed prefetch queue is replaced by the installer only'
+    if stores and name not in installers:
+      ctx.fail(rule, m, what,
+               f'`{unparse(stores[0])[:60]}` in {name}: the handler un-installs the queue — a poll after the end marker is'
+               ' answered "[TimeoutError: Generator is not set ...]" instead of the end marker, and the client retries a'
+               ' stream that was complete', node=stores[0])
+    else:
+      ctx.ok(rule, m, what, m.node)
+  ctx.floor(rule, 4, n)
+
+
 from mlmverif.selfcheck import B, OK  # noqa: E402
 
 _F = 'chainables/courier_server.py'
 VARIANTS = [
+    B('handler-drops-the-queue-after-the-end-marker', 'chainables/courier_server.py',
+      "        result.append(StopIteration(*self._generator.returned))\n", "        result.append(StopIteration(*self._generator.returned))\n        self._generator = None\n", 'R-C15-18'),
     B('enqueue-loop-never-rereads-the-stop', 'utils/iter_utils.py',
       "    while not self.enqueue_done:\n      fetched = False", "    while True:\n      fetched = False", 'R-C15-17'),
     B('revert-stop-outside-the-replacing-critical-section', 'chainables/courier_server.py',
